@@ -42,6 +42,23 @@ def streams(rng, tier, boost):
         doc = rd.gen_doc(rng, size=rng.randint(3, 8), feats=feats, label_style='punct' if i % 4 == 0 else 'plain')
         cfg = rd.gen_cfg(rng, split=rng.choice([0, 1, 2, 3, 4]))
         out.append(('links-own', {'doc': doc, 'cfg': cfg}))
+    # the known finding is exercised once it is listed in known_findings.json (until then the stream would fail the check)
+    if any(k.get('id') == CLASH_ID for k in core.load_known(ID)) or os.environ.get('VERIF_C14_CLASH'):
+        out += clash_cases()
+    return out
+
+
+CLASH_ID = 'C14-label-equals-generated-id'
+
+
+def clash_cases():
+    """labels that read like generated identifiers (Macro.id does not look at the labels): the known finding CLASH_ID"""
+    out = []
+    for n in (2, 3, 4):
+        src = ('\\documentclass{article}\n\\begin{document}\n\\section{zt1x}\\label{a%010d}\nzw1x\\footnote{zw2x} zw3x\n'
+               '\\subsection{zt2x}\nzw4x \\index{zk1x}\n\\subsection{zt3x}\nzw5x\n\\end{document}\n' % n)
+        cfg = dict(renderer='html5', split=1, filename=rd.TEMPLATES[0], bad=None, base='', tocdepth=3, tocnonfiles=False, crumbs=False, localtoc=False)
+        out.append(('label-like-generated-id', {'doc': {'raw': src}, 'cfg': cfg}))
     return out
 
 
@@ -155,6 +172,11 @@ def oracle(case, rec):
         allids = f['ids'] + f['names']
         dup = sorted(x for x in set(allids) if allids.count(x) > 1)
         if dup:
+            holders = [n for n, _ in rd.tree_nodes(tree) if n[4] == dup[0]]
+            if any(n[5] for n in holders) and any(not n[5] for n in holders):
+                return ('C14:duplicate-id:label-equals-generated-id',
+                        'the identifier %r occurs %d times in %s: it is the label of the %s and the identifier generated for the %s' % (
+                            dup[0], allids.count(dup[0]), name, next(n[8] for n in holders if not n[5]), next(n[8] for n in holders if n[5])))
             return ('C14:duplicate-id', 'the identifier %r occurs %d times in %s' % (dup[0], allids.count(dup[0]), name))
     # (a) every link names a produced file and an identifier in it
     graph = {}
